@@ -839,6 +839,25 @@ EXTRA = ["l|select('odd')", "l|reject('odd')", "l|map('abs')", "lazy0|select('ev
          "l|batch(2)|map('list')", "lazy0|slice(3)", "l|sort|reverse", "sl|unique|chain(obj)", "one|list", "skipw|zip(obj)|reverse"]
 DATA = [[], [5], [3, -1, 2, 7], [0, 0, 1], [-4, -2, 9, 9, 10, 1]]
 
+# compile-time constants: literals of every value kind, constant-folded operators, literal|filter.  The value is taken from
+# compile_expression(..).eval() (no emit instruction involved); the literal form printed by a template must be the JSON document the
+# same value produces when it comes from the context.
+LITERALS = [
+    '"hello world"', '""', '"a\\nb"', '"tab\\there"', '"q\\"uote"', "'single'", '"back\\\\slash"', '"<b>"', '"a&b"', '"it\'s"', '"a/b"', '"\\u2028x"',
+    '"\u00e9\u20ac\U0001f600"', '"{{ name }}"', '"{% raw %}"', '"null"', '"true"', '"123"', '" "', '"\\u0001"', '"a\\rb"', '"x y z, w"', '"1e5"', '"[1, 2]"',
+    '"foo" ~ "bar"', '"a" ~ 1', '"x" ~ "\\n" ~ "y"', '"foo" + "bar"', '"a" ~ "b" ~ "c"', '1 ~ 2', '"n=" ~ 1.5', '"" ~ none',
+    '"hello"|upper', '"Hello World"|lower', '"a,b"|replace(",", ";")', '"  x "|trim', '"hello world"|title', '"abc"|first', '"x"|string', '42|string',
+    '"abc"|length', '[1, 2]|join(" and ")', '"a b"|split(" ")', '"abc"|list', '"x"|default("y")', 'none|default("fallback value")', '"abc"|reverse',
+    '"plain"|safe', '"%s-%s"|format("a", "b")',
+    '42', '-7', '0', '1.5', '-0.0', '1e3', '2 ** 70', 'true', 'false', 'none', '12345678901234567890', '170141183460469231731687303715884105727',
+    '1 + 2', '7 // 2', '7 / 2', '7 % 4', '-(3)', 'not true', '1 == 1', '1 < 2 and "x" == "x"', '"abc" in "xabcx"', '3 if false else 4',
+    '"yes" if true else "no"', '"a" if false else "b"', '("plain text" if 1 else 2)',
+    '[1, "two", 3.5, true, none]', '[]', '{}', '{"a": 1, "b": "x y"}', '{"k": [1, {"z": "plain"}]}', '(1, 2)', '("a",)', '[[], [[]]]', '["a b", "c"]',
+    '{"plain": "hello world"}', '[1, 2] + [3]', '{"a": "plain"}["a"]', '{"a": "plain"}.a', '["x", "y"][1]', '"abc"[1:]', '"abc"[0]', '[1, 2, 3][::-1]',
+    'range(3)', 'range(2)|list', '[3, 1, 2]|sort', '[1, 2]|map("string")|list', '{"b": 1, "a": 2}|dictsort', '{"a": 1}|items|list', '[1, 1, 2]|unique|list',
+    '"a" ~ ("b" if true else "c")', '("a" ~ "b")|upper', '["hello world"]|first', '"hello world"|string|lower',
+]
+
 
 def json_case(expr, d):
     return [JSON_TID, 0] + enc_str(expr) + [len(d)] + list(d)
@@ -862,6 +881,12 @@ def gen_json_exprs(chk):
         ds = DATA if chk.thorough else [DATA[2], r.choice(DATA)]
         for d in ds:
             cases.append(json_case(e, d)); meta.append((e, d))
+    for e in LITERALS:
+        cases.append(json_case(e, [])); meta.append((e, []))
+        for ne in NESTERS[1:]:
+            if chk.thorough or r.chance(1, 3):
+                x = ne.replace("%s", e).replace(", l]", ", 1]")
+                cases.append(json_case(x, [])); meta.append((x, []))
     return cases, meta
 
 
@@ -870,7 +895,7 @@ def parse_json_expr(out):
     try:
         p = P(out, 1)
         d = {"shape": parse_shape(p)}
-        for leg in ("tojson", "indent", "json", "js", "yaml"): d[leg] = parse_text(p)
+        for leg in ("tojson", "indent", "json", "js", "yaml", "block", "doc", "var"): d[leg] = parse_text(p)
         return d if p.i == len(out) else None
     except (ValueError, IndexError):
         return None
@@ -906,13 +931,25 @@ def evaluate_json_exprs(chk, cases, meta, A):
             except NoJson as e:
                 if not rel: A["hist"]["jsonexpr:not-applicable (%s)" % e] += 1
                 continue
-            for leg, safe, what in (("tojson", True, "{{ (%s)|tojson }}"), ("indent", True, "{{ (%s)|tojson(indent=2) }}"),
-                                    ("json", False, "{{ %s }} in a .json template"), ("js", False, "{{ %s }} in a .js template"),
-                                    ("yaml", False, "{{ %s }} in a .yaml template")):
-                if not safe and d["shape"][0] == 'str' and d["shape"][1] == 1: continue
-                why = check_json(d[leg], exp, safe)
+            is_safe_str = d["shape"][0] == 'str' and d["shape"][1] == 1
+            doc_exp = ('obj', {"k": exp, "l": ('arr', [exp, ('int', 1)])})
+            for leg, safe, what, want in (("tojson", True, "{{ (%s)|tojson }}", exp), ("indent", True, "{{ (%s)|tojson(indent=2) }}", exp),
+                                          ("json", False, "{{ %s }} in a .json template", exp), ("js", False, "{{ %s }} in a .js template", exp),
+                                          ("yaml", False, "{{ %s }} in a .yaml template", exp),
+                                          ("block", False, '{%% autoescape "json" %%}{{ %s }}{%% endautoescape %%}', exp),
+                                          ("doc", False, '{"k": {{ %s }}, "l": [{{ %s }}, 1]} in a .json template', doc_exp),
+                                          ("var", False, "{{ x }} in a .json template with x = the value of %s", exp)):
+                if not safe and is_safe_str: continue
+                if leg == "doc" and "one" in expr: continue        # a one-shot iterator cannot be printed twice
+                why = check_json(d[leg], want, safe)
                 if why:
-                    A["viol"].append((c, None, prof, "json", "%s: %s" % (what % expr, why), {"expr": expr, "l": data, "output": d[leg][1] if d[leg][0] == 'ok' else None}))
+                    A["viol"].append((c, None, prof, "json", "%s: %s" % (what.replace("%%", "%").replace("%s", expr), why),
+                                      {"expr": expr, "l": data, "output": d[leg][1] if d[leg][0] == 'ok' else None}))
+            # literal form = variable form: the text printed for the expression is the text printed for its value from the context
+            if not is_safe_str and d["json"] != d["var"] and "one" not in expr:
+                A["viol"].append((c, None, prof, "json", "{{ %s }} and {{ x }} with x = its value print different JSON under auto-escaping" % expr,
+                                  {"expr": expr, "l": data, "output": d["json"][1] if d["json"][0] == 'ok' else None,
+                                   "variable_form": d["var"][1] if d["var"][0] == 'ok' else None}))
             if i in arr_model and d["tojson"][0] == 'ok':
                 if [0, len(d["tojson"][1])] + [ord(ch) for ch in d["tojson"][1]] != arr_model[i]:
                     A["corr_bad"].append((c, prof, "JSON array text", impl[rel][i], arr_model[i]))
@@ -1059,8 +1096,10 @@ def main():
                        "serde(flatten) on a value, conversion failing/panicking after registering a handle) followed by conversions with embedded values; "
                        "plus %d template expressions x data over every iterable kind (list, tuple, sized / unsized / one-shot iterables, dynamic iterable object, "
                        "range, slices, reversed, dict views, chain/zip/map/select/reject/batch/slice/unique/sort results, nested in maps and lists) rendered by "
-                       "tojson, tojson(indent=2) and .json/.js/.yaml auto-escaping, each parsed and compared with the value"
-                       % (nrand, len(TYPES), A["nstr"] - sum(1 for t in trees[:nrand] if t and t[0] == STRING_TID), "all" if chk.thorough else "a quarter", len(pcases), len(jcases)))
+                       "tojson, tojson(indent=2), .json/.js/.yaml auto-escaping, an autoescape \"json\" block and inside a JSON document, each parsed and compared with the "
+                       "value; among them %d compile-time constants (string literals with and without metacharacters, ~ / + of literals, literal|filter, numeric / "
+                       "bool / none / list / map / tuple literals, constant conditionals) whose printed text must equal the text of the same value from the context"
+                       % (nrand, len(TYPES), A["nstr"] - sum(1 for t in trees[:nrand] if t and t[0] == STRING_TID), "all" if chk.thorough else "a quarter", len(pcases), len(jcases), len(LITERALS)))
     chk.cov["exhaustive"] = False
     chk.cov["samples"] = [{"type": TYPES[trees[i][0]][0], "value": show(trees[i][1])} for i in
                           sorted(set([0, len(cases) // 5, len(cases) // 3, len(cases) // 2, max(0, nrand - 1), len(cases) - 1])) if 0 <= i < len(trees) and trees[i] is not None]
